@@ -9,8 +9,7 @@ package main
 // operations join from, `go` copies the parent's clock. Two accesses to the same memory cell (or the same map) by
 // different threads, at least one a write, neither ordered before the other, made by code of the watched packages
 // (not by harness files), are a race on that schedule. The relation is over-approximated where the model is coarser
-// than Go's (one clock per channel, readers of an RWMutex ordered among themselves): that can only hide a race,
-// never invent one. A race is reported only after `go test -race` on the same forced schedule shows it (native.go).
+// than Go's (one clock per channel): that can only hide a race, never invent one. A race is reported only after `go test -race` on the same forced schedule shows it (native.go).
 
 import (
 	"fmt"
@@ -44,6 +43,10 @@ func vcJoin(a, b vclock) vclock {
 	}
 	return out
 }
+
+// raceReaders keys the clock that RUnlock releases into: a later Lock acquires it, a later RLock does not (readers of
+// an RWMutex are not ordered among themselves)
+type raceReaders struct{ m *mutexState }
 
 type raceAccess struct {
 	tid, clk int
